@@ -523,6 +523,8 @@ def run(ctx):
     r03g(ctx)
     r03h(ctx)
     r03i(ctx)
+    from .c02 import r02f
+    r02f(ctx)     # the size-derived cap of compound edits is an upper bound only if no node has size 0
     from .c04 import r04d
     r04d(ctx)
     ctx.assume("arithmetic inside the third-party assignment solver and numpy accumulation is not analysed")
